@@ -249,7 +249,8 @@ fn instance(tx: mpsc::Sender<Value>, seed: u64, flavor: String, exec: String, ti
     let mut cbs: Vec<Value> = Vec::new();
     let mut lookups = 0u64;
     let mut next_val = 1u64;
-    let keys = [2u64, 3, 4, 5, 6, 7, 8];
+    // the last one has an index of its own in the shard of key 2: a guard on key 2 also blocks the store half of its insert
+    let keys = [2u64, 3, 4, 5, 6, 7, 8, crate::cache::SHARD_MATE];
     let mut snap = |api: &Api, now: u64, ticked: bool, due_now: u64, accepted: &Vec<u64>, cleared: &Vec<u64>, cbs: &mut Vec<Value>, lookups: u64, what: &str| {
         cbs.extend(drain_callbacks());
         let p = post(&api.0);
@@ -651,7 +652,9 @@ fn par_instance(tx: mpsc::Sender<Value>, seed: u64, flavor: String, exec: String
         let calls: Vec<Value> = VLOG.lock().drain(..).map(|(p, c, ok)| json!([p, c, ok])).collect();
         api.wait();
         let fin = api.get(k).map(|v| v as i64).unwrap_or(-1);
-        let _ = tx.send(json!({"ev":"Chain","init":v0,"calls":calls,"final":fin,"writes":writers * per}));
+        // some of the writes carried a TTL, some did not: the expiration buckets must end up matching the entry that won
+        let pq = post(&api.0);
+        let _ = tx.send(json!({"ev":"Chain","init":v0,"calls":calls,"final":fin,"writes":writers * per,"store":pq["store"],"em":pq["em"]}));
     }
     // (2) lookups from several threads
     if let Some(k) = resident_key {
